@@ -248,6 +248,24 @@ func randAmount(r *rng, manyDec bool) string {
 
 func dateStr(t time.Time) string { return t.Format("2006-01-02") }
 
+// genSpan picks the first day and the length in days of a generated journal.  One case in five sits on a
+// calendar corner - the last days of a year (leap and common, century years) or the end of February - with
+// only a few days, so that directives fall on consecutive dates across the boundary (seeded change
+// C04b-daykey-collision merged 31 December of a leap year with 1 January and was missed without this).
+func genSpan(r *rng, lo, hi int) (time.Time, int) {
+	if r.chance(20) {
+		y := pick(r, []int{2019, 2020, 2023, 2024, 2000, 2100, 2016, 2096})
+		var s time.Time
+		if r.chance(70) {
+			s = time.Date(y, 12, r.rangeInt(27, 31), 0, 0, 0, 0, time.UTC)
+		} else {
+			s = time.Date(y, 2, r.rangeInt(26, 28), 0, 0, 0, 0, time.UTC)
+		}
+		return s, r.rangeInt(3, 9)
+	}
+	return time.Date(2020, 1, 1, 0, 0, 0, 0, time.UTC).AddDate(0, 0, r.intn(400)), r.rangeInt(lo, hi)
+}
+
 // genJournal builds a journal that knut accepts (unless later mutated): every account is
 // opened before use, prices cover every commodity from the first day, assertions state the
 // running quantities.
